@@ -63,6 +63,21 @@ struct Sent {
     end: usize,
 }
 
+/// A value of the lower version could not be replayed into the generated type of the higher version
+/// although the higher version's text is the lower one's plus appended additions (the chain files are
+/// generated that way): the compiler gave the components another order in one of the versions, so the
+/// peers put different components at the same position of the encoding (this is how the sorting of SET
+/// extension additions by tag showed up; a wire-level demonstration is in the fix: commit).
+fn structure_violation(role: &str, lo: usize, hi: usize, lo_name: &str, hi_name: &str, e: &crate::treeread::TreeReadError) -> Violation {
+    match e {
+        crate::treeread::TreeReadError::Mismatch(m) => Violation {
+            signature: format!("C05/version-structure-mismatch/chain={role}"),
+            detail: format!("chain {role}: a V{lo} value ({lo_name}) does not fit the component order of the generated V{hi} type ({hi_name}) although V{hi} only appends additions: {m}"),
+        },
+        other => Violation { signature: "HARNESS/treereader".into(), detail: format!("{:?}", other) },
+    }
+}
+
 pub fn run(ctx: &mut RunCtx<'_>) -> Option<Violation> {
     let z = zoo();
     let c = chains();
@@ -105,12 +120,12 @@ pub fn run(ctx: &mut RunCtx<'_>) -> Option<Violation> {
         let drawn = (t_hi.from_tree)(&low_tree, Lane::new(ctx.ch, 1), TreeReadCfg { mode: NewMode::Draw, gen });
         let (high, stats) = match drawn {
             Ok(x) => x,
-            Err(e) => return Some(Violation { signature: "HARNESS/treereader".into(), detail: format!("{:?}", e) }),
+            Err(e) => return Some(structure_violation(role_name, lo, hi, t_lo.name, t_hi.name, &e)),
         };
         let mut ch0 = crate::choices::Choices::from_tape(vec![]);
         let high_absent = match (t_hi.from_tree)(&low_tree, Lane::new(&mut ch0, 0), TreeReadCfg { mode: NewMode::AllAbsent, gen }) {
             Ok(v) => v.0,
-            Err(e) => return Some(Violation { signature: "HARNESS/treereader".into(), detail: format!("{:?}", e) }),
+            Err(e) => return Some(structure_violation(role_name, lo, hi, t_lo.name, t_hi.name, &e)),
         };
         let high_tree = (t_hi.tree)(&high);
         // domain predicates
